@@ -14,6 +14,7 @@ func init() {
 	VerifHarnesses["H_C07_array_neighbours"] = H_C07_array_neighbours
 	VerifHarnesses["H_C12_alias"] = H_C12_alias
 	VerifHarnesses["H_C04_roundtrip"] = H_C04_roundtrip
+	VerifHarnesses["H_C05_skipped_member"] = H_C05_skipped_member
 }
 
 // ---------------------------------------------------------------- C15: keys select fields
@@ -236,4 +237,34 @@ func H_C04_roundtrip(t *verifrt.T) {
 	if v.PI != nil && w.PI != nil {
 		t.Assert("pointer-int", *w.PI == *v.PI)
 	}
+}
+
+// ---------------------------------------------------------------- C05: parts the destination ignores
+
+type vskT struct {
+	A int `json:"a"`
+}
+
+// {"x":<N free bytes>,"a":1} into a struct without member x (the value is
+// skipped, not decoded) and [<N free bytes>,7] surplus into [0]... : a valid
+// document is never rejected; an accepted invalid one belongs to the recorded
+// class D20 (skipped parts are only bracket/quote-balanced).
+func H_C05_skipped_member(t *verifrt.T) {
+	n := t.Param("N")
+	val := t.Bytes("val", n)
+	for i := range val {
+		t.Assume(val[i] != 0)
+	}
+	doc := append([]byte(`{"x":`), val...)
+	doc = append(doc, `,"a":1}`...)
+	var v vskT
+	err := Unmarshal(doc, &v)
+	accepted := err == nil
+	strict := verifref.ValidJSON(doc, verifref.Relax{})
+	t.ObserveBool("accepted", accepted)
+	t.Known("D20-skipped-member-not-validated", verifrt.And(accepted, !strict))
+	t.Assert("valid-document-accepted", verifrt.Implies(strict, accepted))
+	t.Assert("known-member-decoded", verifrt.Implies(verifrt.And(strict, accepted), v.A == 1))
+	t.Cover("accepted-valid", verifrt.And(accepted, strict))
+	t.Cover("rejected", !accepted)
 }
